@@ -258,7 +258,7 @@ class W2World(World):
         w2_rules.check_invariants(self, post, post_struct, op)
         self._last_struct = post_struct
         self.since_views += 1
-        if not self.pending and (self.since_views >= self.cfg.get('views_every', 3) or info.get('kind') == 'remove'
+        if not [v for v in self.pending if v.prop == 'C07'] and (self.since_views >= self.cfg.get('views_every', 3) or info.get('kind') == 'remove'
                                  or op in ('rename', 'roundtrip')):
             w2_rules.check_views(self, post_struct, op)
             self.since_views = 0
